@@ -294,6 +294,46 @@ def shape_case(rng, s):
     return c
 
 
+def layout_case(rng):
+    """a parameter mapped along a non-leading axis: lane i must be drawn from lane i's parameters
+    (near-deterministic parameters make the pairing visible in a single draw)"""
+    which = rng.choice(["normal", "normal", "laplace", "categorical", "mvn_loc"])
+    n = rng.choice([3, 4])
+    c = {"kind": "layout", "name": which, "n": n}
+    try:
+        key = jax.random.key(rng.randrange(10 ** 6))
+        tiny = jnp.float32(2.0 ** -20)
+        if which in ("normal", "laplace"):
+            per = rng.choice([(2, 3), (3,), (2, 2)])
+            ax = rng.randrange(len(per) + 1)
+            base = jnp.arange(n * int(np.prod(per)), dtype=jnp.float32).reshape((n,) + per) * 3.0
+            stack = jnp.moveaxis(base, 0, ax)
+            d = gd.normal if which == "normal" else gd.laplace
+            x = seed(modular_vmap(lambda m: d.sample(m, tiny), in_axes=(ax,)))(key, stack)
+            c["axis"], c["per"] = ax, list(per)
+            c["ok"] = bool(x.shape == base.shape and np.allclose(np.asarray(x), np.asarray(base), atol=1e-2))
+        elif which == "categorical":
+            k = 3
+            hot = [rng.randrange(k) for _ in range(n)]
+            base = jnp.asarray([[60.0 if j == h else 0.0 for j in range(k)] for h in hot], dtype=jnp.float32)   # (n, k)
+            ax = rng.choice([0, 1])
+            stack = jnp.moveaxis(base, 0, ax)
+            x = seed(modular_vmap(lambda lg: gd.categorical.sample(lg), in_axes=(ax,)))(key, stack)
+            c["axis"] = ax
+            c["ok"] = bool(x.shape == (n,) and [int(v) for v in np.asarray(x)] == hot)
+        else:
+            base = jnp.arange(n * 2, dtype=jnp.float32).reshape(n, 2) * 5.0
+            ax = rng.choice([0, 1])
+            stack = jnp.moveaxis(base, 0, ax)
+            cov = jnp.eye(2, dtype=jnp.float32) * 1e-8
+            x = seed(modular_vmap(lambda m: gd.multivariate_normal.sample(m, cov), in_axes=(ax,)))(key, stack)
+            c["axis"] = ax
+            c["ok"] = bool(x.shape == (n, 2) and np.allclose(np.asarray(x), np.asarray(base), atol=1e-2))
+    except Exception as e:  # noqa: BLE001
+        c["err"] = type(e).__name__ + ": " + str(e)[:200]
+    return c
+
+
 def gof(xs, ref, discrete):
     """p-value of a goodness-of-fit test of draws xs against the scipy reference"""
     xs = np.asarray(xs, dtype=np.float64)
@@ -382,8 +422,10 @@ def main():
         r = i % 8
         if r in (0, 1, 2, 3, 4):
             cases.append(lp_case(rng, s))
-        elif r in (5, 6):
+        elif r == 5:
             cases.append(shape_case(rng, s))
+        elif r == 6:
+            cases.append(shape_case(rng, s) if i % 16 == 6 else layout_case(rng))
         else:
             cases.append(law_case(rng, s))
     json.dump({"cases": cases, "exported": sorted(n for n in dir(gd) if not n.startswith("_") and hasattr(getattr(gd, n), "logpdf")),
